@@ -314,13 +314,16 @@ pub fn x_strategy() -> impl Strategy<Value = X> {
     ]
 }
 
-const COMPOUND_TARGETS: [&str; 26] = [
+const COMPOUND_TARGETS: [&str; 33] = [
     "{} m", "{} / s", "{} s", "m {}", "2 {}", "1|2 {}", "m / {}", "{} {}",
     // the scale followed by every other kind of token that continues an expression
     "{}|2", "{} | 2", "{} %", "{} mod 7", "{} and 1", "{} xor 3", "{} 0x10", "{} 1e3", "{} * 2", "{}^2", "{} + 1 K", "{} 'apple'",
     "{} per s", "{} of water",
     // and preceded by one
     "0x10 {}", "% {}", "m^2 {}", "'apple' {}",
+    // the places of a target whose units are named without being looked into: an exponent, the
+    // right of `=`, the operand of `of`
+    "x = 1 {}", "K = 1 {}", "2 (foo = 100 {})", "K^(1 {} / 274.15 K)", "K^(274.15 K / 1 {})", "m^(2 {} / 275.15 K * 2)", "density of (1 {} / 274.15 K) water",
 ];
 const DIM_UNITS: [&str; 6] = ["m", "kg", "K", "s", "km", "mol"];
 
